@@ -380,6 +380,34 @@ def h_e8m0():
     return h
 
 
+def h_e8m0_near():
+    """the neighbours of a power of two (one ulp above / below, and a few ulps away) are not powers of two: ValueError on every route.
+    Concrete values chosen by solver forks (an encoder that computes log2 of its argument concretises a symbolic float)"""
+    def h(K):
+        import bitstring
+        k = K.choice('k', [-127, -126, -60, -4, -1, 0, 1, 4, 20, 60, 126, 127])
+        d = K.choice('ulps', [1, -1, 2, -3, 16])
+        p2 = math.ldexp(1.0, k)
+        f = p2
+        for _ in range(abs(d)):
+            f = math.nextafter(f, math.inf if d > 0 else 0.0)
+        route = K.choice('route', ['kw', 'pack', 'build', 'prop', 'array', 'str'])
+        fn = {'kw': lambda: bitstring.Bits(e8m0mxfp=f), 'pack': lambda: bitstring.pack('e8m0mxfp', f), 'build': lambda: bitstring.Dtype('e8m0mxfp').build(f),
+              'prop': lambda: _set_prop(bitstring.BitArray(8), 'e8m0mxfp', f), 'array': lambda: bitstring.Array('e8m0mxfp', [f]), 'str': lambda: bitstring.Bits('e8m0mxfp=' + repr(f))}[route]
+        r = call(fn)
+        ok = call(lambda: bitstring.Bits(e8m0mxfp=p2))
+        if not K.check(ok.ok and ok.value.uint == k + 127, 'the exact power of two must encode as k + 127', k=k):
+            return False
+        return K.check(r.raised(ValueError), 'a value that is not exactly a power of two must raise ValueError (no rounding)', value=f.hex(), k=k, route=route, got=(raw(getattr(r.value, 'data', r.value)) if r.ok else None))
+    return h
+
+
+def _set_prop(obj, name, v):
+    from kit.state import set_attr
+    set_attr(obj, name, v)
+    return obj
+
+
 def h_e8m0_decode():
     def h(K):
         import bitstring
@@ -471,6 +499,7 @@ def conditions(tier):
     add('C11.mxint-decode', h_mxint_decode(), 'every code', D_MISC)
     add('C11.e8m0-encode', h_e8m0(), 'every float64 input', D_MISC)
     add('C11.e8m0-decode', h_e8m0_decode(), 'every code', D_MISC)
+    add('C11.e8m0-near-miss', h_e8m0_near(), '12 exponents x 5 ulp distances x 6 routes (concrete, chosen by solver forks)', D_MISC)
     for t in (['bfloat', 'bfloatle'] if q else ['bfloat', 'bfloatbe', 'bfloatle', 'bfloatne']):
         add(f'C11.bfloat-encode[{t}]', h_bfloat(t, 'Bits'), 'every float64 input', D_MISC, t=t)
         add(f'C11.bfloat-decode[{t}]', h_bfloat_decode(t), 'every 16-bit pattern', D_MISC, t=t)
